@@ -8,12 +8,12 @@ from mc.core import Result, SubCheck
 
 PROPERTY = "C10"
 ASSUMPTIONS = [
-    "labels: all tuples of <=3 (quick) / <=4 (thorough) labels from an 11-label alphabet (flat names, nested paths, suffix/prefix clashes, a generated unit-operation name 'O1', "
+    "labels: all tuples of <=3 (quick) / <=4 (thorough) labels from an 12-label alphabet (flat names, nested paths, suffix/prefix clashes, a generated unit-operation name 'O1', "
     "a path through it, an untrimmed name, the root name) x {distinct, duplicate} stream names x 5 zone-tree forms",
     "every input stream carries a unique duty, which is how a Stream object found in a zone is traced back to its input",
     "with a user zone tree only labels that resolve to exactly one node of the tree (full path, root-relative path or unique path suffix) are enumerated",
 ]
-LABELS = ["A", "B", "A/B", "B/A", "A/A", "B/C", "A/B/C", "O1", "A/O1", " A ", "Site"]
+LABELS = ["A", "B", "A/B", "B/A", "A/A", "B/C", "A/B/C", "O1", "A/O1", " A ", "Site", "Site/A"]
 TREES = {
     "none": None,
     "flat": {"name": "Site", "type": "Site", "children": [{"name": "A", "type": "Process Zone"}, {"name": "B", "type": "Process Zone"}]},
@@ -214,7 +214,7 @@ SUBCHECKS = {
         describe="the zone tree returned by pinch_analysis_service (after targeting, incl. the net-stream imports of total-site analysis) still conserves the streams",
         rule="as 'prepare', through the full service",
         cases=service_cases, run=run,
-        bound=lambda t: "<=2 labels from 11, 5 tree forms" if t == "quick" else "<=3 labels from 11, 5 tree forms",
+        bound=lambda t: "<=2 labels from 12, 5 tree forms" if t == "quick" else "<=3 labels from 12, 5 tree forms",
     ),
     "prepare": SubCheck(
         name="prepare",
@@ -222,6 +222,6 @@ SUBCHECKS = {
         rule="case = (labels, duplicate names?, tree form); non-trivial = >=2 distinct labels one of which is a path prefix/suffix of another, or a user tree; "
              "outcomes = distinct placements",
         cases=cases, run=run,
-        bound=lambda t: "<=4 labels from 11 (4 only without tree), 5 tree forms" if t == "quick" else "<=5 labels from 11 (5 only without tree), 5 tree forms",
+        bound=lambda t: "<=4 labels from 12 (4 only without tree), 5 tree forms" if t == "quick" else "<=5 labels from 12 (5 only without tree), 5 tree forms",
     ),
 }
